@@ -6,10 +6,21 @@
 
 #include <cstddef>
 #include <iterator>
+#include <type_traits>
 #include <vector>
 
 namespace vh
 {
+
+  // What a misused iterator hands out after the misuse has been recorded: zeroed storage that is
+  // never a live element (the range may be empty, i.e. have no base object to fall back on).
+  template <typename T>
+  inline T&
+  dead_object ()
+  {
+    static typename std::aligned_storage<sizeof (T), alignof (T)>::type raw[1] = { };
+    return *reinterpret_cast<T *> (static_cast<void *> (raw));
+  }
 
   // ------------------------------------------------------------------ single-pass stream
   // All copies share one cursor, like istream_iterator.  Traps (recorded failures):
@@ -56,6 +67,11 @@ namespace vh
       T *p; StreamState *st; std::size_t pos;
       T& operator* () const
       {
+        if (p == 0 || pos >= st->n)
+        {
+          fail ("input.deref_past_end", "the result of it++ on a single-pass iterator at/past last was dereferenced");
+          return dead_object<T> ();
+        }
         if (st->derefs[pos] < 250) ++st->derefs[pos];
         if (st->derefs[pos] > 1)
           fail ("input.double_deref", "position %lu of a single-pass range was dereferenced twice", static_cast<unsigned long> (pos));
@@ -72,20 +88,20 @@ namespace vh
       if (m_end)
       {
         fail ("input.deref_end", "the end iterator of a single-pass range was dereferenced");
-        return *m_base;
+        return dead_object<T> ();
       }
       if (m_st->faults) fault_point (F_IT_DEREF);
       if (m_pos != m_st->cursor)
       {
         fail ("input.stale_copy", "a stale copy (position %lu) of a single-pass iterator was dereferenced after the stream advanced to %lu",
               static_cast<unsigned long> (m_pos), static_cast<unsigned long> (m_st->cursor));
-        return m_base[m_pos < m_st->n ? m_pos : 0];
+        return (m_base != 0 && m_pos < m_st->n) ? m_base[m_pos] : dead_object<T> ();
       }
       if (m_st->cursor >= m_st->n)
       {
         fail ("input.deref_past_end", "single-pass iterator dereferenced at/past last (position %lu of %lu)",
               static_cast<unsigned long> (m_st->cursor), static_cast<unsigned long> (m_st->n));
-        return *m_base;
+        return dead_object<T> ();
       }
       if (m_st->derefs[m_pos] < 250) ++m_st->derefs[m_pos];
       if (m_st->derefs[m_pos] > 1)
@@ -189,7 +205,7 @@ namespace vh
       if (m_pos < 0 || static_cast<std::size_t> (m_pos) >= m_st->n)
       {
         fail ("range.deref_outside", "multi-pass iterator dereferenced at %ld outside [0, %lu)", static_cast<long> (m_pos), static_cast<unsigned long> (m_st->n));
-        return *m_base;
+        return dead_object<T> ();
       }
       return m_base[m_pos];
     }
